@@ -12,7 +12,7 @@
 #[path = "c15.rs"]
 mod base;
 use base::*;
-use minijinja::value::Serde;
+use minijinja::value::{Serde, Value};
 use minijinja::Environment;
 use mjverif::*;
 use std::panic::{catch_unwind, AssertUnwindSafe};
@@ -21,20 +21,24 @@ use std::sync::Barrier;
 const THREADS: usize = 8;
 const ROUNDS: usize = 3;
 
-fn render_all(env: &Environment<'static>, out: &mut Vec<String>) {
+fn render_all(env: &Environment<'static>, data: &Value, out: &mut Vec<String>) {
     for n in NAMES {
-        let (t, v) = enc(env.get_template(n).and_then(|t| t.render(ctx())));
+        let (t, v) = enc(env.get_template(n).and_then(|t| t.render(ctx_of(0, data))));
         out.push(t.to_string());
         out.push(v.to_string());
     }
 }
 
 fn dirty(env: &Environment<'static>, i: usize) {
+    let data = data_value();
+    let ctx = || ctx_of(1, &data);
     for k in 0..(2 + i % 3) {
-        let _ = env.render_named_str("bad", &src_text(1 + 8 * k as i64), ctx());
-        let _ = env.render_named_str("bad", &src_text(2 + 8 * k as i64), ctx());
-        let _ = env.render_named_str("bad", &src_text(3 + 8 * 2), Serde(BadCtx(false)));
-        let _ = catch_unwind(AssertUnwindSafe(|| env.render_named_str("bad", &src_text(8), Serde(BadCtx(true)))));
+        let _ = env.render_named_str("bad", &src_text(1 + 16 * k as i64), ctx());
+        let _ = env.render_named_str("bad", &src_text(2 + 16 * k as i64), ctx());
+        let _ = env.render_named_str("bad", &src_text(3 + 16 * 2), Serde(BadCtx(false)));
+        let _ = catch_unwind(AssertUnwindSafe(|| env.render_named_str("bad", &src_text(16), Serde(BadCtx(true)))));
+        let _ = env.render_named_str("bad", &src_text(12), ctx());
+        let _ = env.render_named_str("bad", &src_text(9), ctx());
     }
 }
 
@@ -48,8 +52,9 @@ fn main() {
             w.step(op, a, b);
         }
         let mut out: Vec<String> = vec![];
-        observe(&w.cur, &mut out);
+        observe(&w.cur, &w.data, &mut out);
         let env = &w.cur;
+        let data = &w.data;
         let barrier = Barrier::new(THREADS);
         let results: Vec<Vec<String>> = std::thread::scope(|s| {
             let handles: Vec<_> = (0..THREADS)
@@ -60,7 +65,7 @@ fn main() {
                         dirty(env, i);
                         barrier.wait();
                         for r in 0..ROUNDS {
-                            render_all(env, &mut o);
+                            render_all(env, data, &mut o);
                             if i % 2 == 1 {
                                 let mut mine = env.clone();
                                 let w = (i + r) as i64;
@@ -68,7 +73,7 @@ fn main() {
                                 mine.add_test(REG_NAMES[1][(r + 1) % 2], move |v: i64| v == w);
                                 mine.remove_global(REG_NAMES[2][1]);
                                 mine.remove_template(NAMES[r % 4]);
-                                let _ = mine.add_template_owned(NAMES[(r + 1) % 4].to_string(), src_text(8 * (7000 + w)));
+                                let _ = mine.add_template_owned(NAMES[(r + 1) % 4].to_string(), src_text(16 * (7000 + w)));
                                 mine.clear_templates();
                                 dirty(&mine, i);
                             }
@@ -82,7 +87,7 @@ fn main() {
         for r in results {
             out.extend(r);
         }
-        observe(&w.cur, &mut out);
+        observe(&w.cur, &w.data, &mut out);
         out
     });
 }
